@@ -599,6 +599,57 @@ var tsVariants = []tsVariant{
 	{"edge-297s", func(b int64) string { return fmt.Sprint(b - 297) }},
 }
 
+// extreme values (each is sent with a VALID signature over exactly that string / its decimal value):
+// everything in the far past must be refused, whatever integer arithmetic the age is computed with;
+// a string that is not a decimal integer cannot be "no older than five minutes" either.
+func init() {
+	lit := func(name, v string) tsVariant { return tsVariant{name, func(int64) string { return v }} }
+	tsVariants = append(tsVariants,
+		lit("min-int64", "-9223372036854775808"),
+		lit("min-int64-plus-1", "-9223372036854775807"),
+		lit("min-int64-plus-299", "-9223372036854775509"),
+		tsVariant{"min-int64-plus-now", func(b int64) string { return fmt.Sprint(-9223372036854775808 + b) }},
+		lit("minus-2pow62", "-4611686018427387904"),
+		lit("minus-1e18", "-1000000000000000000"),
+		lit("one", "1"),
+		lit("max-int64-minus-1", "9223372036854775806"),
+		lit("2pow62", "4611686018427387904"),
+		lit("spelled-plus-one", "+1"),
+		lit("spelled-minus-zero", "-0"),
+		lit("spelled-hex-16", "0x10"),
+		lit("spelled-exponent-1e3", "1e3"),
+		lit("spelled-leading-zeros-one", "0001"),
+		lit("spelled-space-one", " 1"),
+		lit("spelled-one-space", "1 "),
+		lit("spelled-thirty-digits", "100000000000000000000000000000"),
+		lit("spelled-minus-thirty-digits", "-100000000000000000000000000000"),
+	)
+	idx := map[string]int{}
+	for i, v := range tsVariants {
+		idx[v.name] = i
+	}
+	for _, n := range []string{"min-int64", "min-int64", "min-int64", "min-int64", "min-int64-plus-1", "min-int64-plus-1", "min-int64-plus-1",
+		"min-int64-plus-299", "min-int64-plus-299", "min-int64-plus-299", "min-int64-plus-now", "minus-2pow62", "minus-1e18", "negative-now", "minus-one", "zero", "one",
+		"max-int64", "max-int64-minus-1", "2pow62", "spelled-plus-one", "spelled-minus-zero", "spelled-hex-16", "spelled-exponent-1e3",
+		"spelled-leading-zeros-one", "spelled-space-one", "spelled-one-space", "spelled-thirty-digits", "spelled-minus-thirty-digits", "empty"} {
+		i, ok := idx[n]
+		if !ok {
+			panic("unknown ts variant " + n)
+		}
+		extremeTS = append(extremeTS, i)
+		extremeNames[n] = true
+	}
+}
+
+// extremeTS: weighted indexes of the extreme-value class; extremeNames its members.
+var (
+	extremeTS    []int
+	extremeNames = map[string]bool{}
+)
+
+func isExtremeTS(tsVar string) bool    { return extremeNames[tsVar] }
+func isNearMinInt64(tsVar string) bool { return strings.HasPrefix(tsVar, "min-int64") }
+
 var freshTS = []int{2, 3, 4} // indexes of minus-4min, minus-1min, now
 
 // justStaleTS: indexes of the variants that are 301 ... 345 s old when signed.
